@@ -6,6 +6,8 @@ package main
 import (
 	"fmt"
 	"os"
+	"path/filepath"
+	"sort"
 	"go/types"
 	"math/big"
 	"strconv"
@@ -464,6 +466,7 @@ func (e *Engine) assertCond(st *State, label string, cond *Term, where string) {
 	switch r {
 	case Unsat:
 		atomic.AddInt64(&e.stats.Discharged, 1)
+		e.dumpObligation(st, label, Not(cond))
 		st.assume(cond)
 	case Sat:
 		e.reportFinding(st, label, "assert", where, Not(cond))
@@ -499,7 +502,10 @@ func (e *Engine) coverCond(st *State, label string, cond *Term) {
 
 func (e *Engine) buildFinding(st *State, label, kind, where string, extra *Term) *Finding {
 	f := &Finding{Harness: st.harness, Label: label, Kind: kind, Where: where,
-		Tags: append([]string(nil), st.tags...), Events: append([]string(nil), st.events...), Sched: append([]string(nil), st.sched...)}
+		Tags: append([]string(nil), st.tags...), Events: append([]string(nil), st.events...), Sched: append([]string(nil), st.sched...), Bounds: map[string]int{}}
+	for k, v := range e.bounds {
+		f.Bounds[k] = v
+	}
 	// model
 	var terms []*Term
 	for _, in := range st.inputs {
@@ -662,3 +668,53 @@ var _ = strconv.Itoa
 var _ = fmt.Sprintf
 var _ ssa.Value
 var _ types.Type
+
+// dumpObligation writes a discharged obligation (path condition ∧ ¬property, found unsat by the
+// working solver) as a stand-alone SMT-LIB2 script, so that the driver can put the same question
+// to z3 5.x and cvc5 afterwards. At most crossMax scripts per assertion label.
+func (e *Engine) dumpObligation(st *State, label string, neg *Term) {
+	if e.crossDir == "" {
+		return
+	}
+	e.mu.Lock()
+	n := e.crossN[label]
+	if n >= e.crossMax {
+		e.mu.Unlock()
+		return
+	}
+	e.crossN[label] = n + 1
+	e.mu.Unlock()
+	e.writeScript(st, fmt.Sprintf("%s-%d", sanitize(label), n), neg)
+}
+
+func (e *Engine) writeScript(st *State, name string, neg *Term) {
+	pc := st.pc.Slice()
+	d := &declSet{vars: map[string]Sort{}, ufs: map[string]string{}}
+	seen := map[int]bool{}
+	for _, t := range pc {
+		collectDecls(t, seen, d)
+	}
+	collectDecls(neg, seen, d)
+	var sb strings.Builder
+	sb.WriteString("(set-logic ALL)\n")
+	for _, k := range keysOf(d.vars) {
+		fmt.Fprintf(&sb, "(declare-const %s %s)\n", k, d.vars[k])
+	}
+	for _, k := range keysOf(d.ufs) {
+		fmt.Fprintf(&sb, "(declare-fun %s %s)\n", k, d.ufs[k])
+	}
+	for _, t := range pc {
+		sb.WriteString("(assert " + smt(t) + ")\n")
+	}
+	sb.WriteString("(assert " + smt(neg) + ")\n(check-sat)\n")
+	os.WriteFile(filepath.Join(e.crossDir, name+".smt2"), []byte(sb.String()), 0o644)
+}
+
+func keysOf[V any](m map[string]V) []string {
+	out := make([]string, 0, len(m))
+	for k := range m {
+		out = append(out, k)
+	}
+	sort.Strings(out)
+	return out
+}
